@@ -98,97 +98,6 @@ private theorem flatMap_sig (f : Participant → String) :
     simp only [List.map_cons, List.cons.injEq]
     exact ⟨h.2.1, flatMap_sig f l l' h.2.2⟩
 
-/-! ### the property -/
-
-/-- a packet that changes anything was signed, over the message derived from the very state being stored, by the key
-that the stored state's own participant lists record for the claimed sender -/
-theorem c09_signed_by_listed (p : Proc) (m : Meta) (pk : Packet) (now : Int)
-    (h : (p.packet m pk now).1 ≠ p) :
-    ∃ next part, (p.packet m pk now).1.current = some next ∧
-      part ∈ next.remaining ++ next.joining ∧ part.addr = m.addr ∧ m.sigKey = part.key ∧
-      m.sigMsg = messageForSigning m.beaconID pk (termsFromState next) := by
-  obtain ⟨n, -, hv, hc⟩ := packet_changed h
-  obtain ⟨part, h1, h2, h3, h4⟩ := verifyMessage_ok hv
-  exact ⟨n, part, hc, h1, h2, h3, h4⟩
-
-/-- only the leader proposes, executes or aborts; only a remaining member accepts or rejects, and only for itself -/
-theorem c09_role (p : Proc) (m : Meta) (pk : Packet) (now : Int) (h : (p.packet m pk now).1 ≠ p) :
-    ∃ next, (p.packet m pk now).1.current = some next ∧
-      (match pk with
-       | .proposal t => t.leader.addr = m.addr ∧ next.leader = some t.leader
-       | .execute _ => (next.leader.map (·.addr)) = some m.addr
-       | .abort _ => (next.leader.map (·.addr)) = some m.addr
-       | .accept a => a.addr = m.addr ∧ contains next.remaining a = true
-       | .reject r => r.addr = m.addr ∧ contains next.remaining r = true) := by
-  -- FALSE as stated (left unproved on purpose): refuted by `c09_role_false` below; what holds is `c09_role_corrected`.
-  sorry
-
-/-
-`c09_role` does NOT hold for the code as it is. `DBState.Executing` sends a node that is listed as *leaving* to
-`Left` before it compares the sender with the leader, so an `execute` packet signed by ANY member listed in the
-proposal (remaining or joining) moves a leaver from Proposed to Left. Witness below (kernel-checked): the leaver "x"
-holds the proposal of leader "l"; the remaining member "r" signs `execute`; the packet is stored, the state is `Left`,
-and the stored leader is "l", not the sender "r".
-(Second, degenerate divergence: for a record with `leader = none` -- which no proposal produces -- the model compares the
-sender with the empty address, so the conclusion `… = some m.addr` fails there too; `c09_role_no_leader_counterexample`.)
--/
-
-/-- the statement of `c09_role` as given -/
-def RoleStatement : Prop :=
-  ∀ (p : Proc) (m : Meta) (pk : Packet) (now : Int), (p.packet m pk now).1 ≠ p →
-    ∃ next, (p.packet m pk now).1.current = some next ∧
-      (match pk with
-       | .proposal t => t.leader.addr = m.addr ∧ next.leader = some t.leader
-       | .execute _ => (next.leader.map (·.addr)) = some m.addr
-       | .abort _ => (next.leader.map (·.addr)) = some m.addr
-       | .accept a => a.addr = m.addr ∧ contains next.remaining a = true
-       | .reject r => r.addr = m.addr ∧ contains next.remaining r = true)
-
-def roleL : Participant := { addr := "l", key := [2], sig := [2], scheme := "pedersen-bls-chained" }
-def roleR : Participant := { addr := "r", key := [3], sig := [3], scheme := "pedersen-bls-chained" }
-def roleX : Participant := { addr := "x", key := [4], sig := [4], scheme := "pedersen-bls-chained" }
-/-- the leaver `x` holds a received epoch-2 proposal led by `l` -/
-def roleState : DBState :=
-  { beaconID := "default", epoch := 2, state := .proposed, threshold := 2, timeout := 100,
-    schemeID := "pedersen-bls-chained", genesisTime := 5, genesisSeed := [9], catchupSec := 1, periodSec := 3,
-    leader := some roleL, remaining := [roleL, roleR], leaving := [roleX] }
-def roleProc : Proc := { beaconID := "default", me := roleX, current := some roleState }
-/-- an `execute` packet signed by the remaining member `r`, who is not the leader -/
-def roleMeta : Meta :=
-  { beaconID := "default", addr := "r", sigId := "0011223344", sigKey := roleR.key,
-    sigMsg := messageForSigning "default" (.execute 0) (termsFromState roleState) }
-
-theorem c09_role_counterexample :
-    (roleProc.packet roleMeta (.execute 0) 0).1.current.map (fun n => (n.state, n.leader.map (·.addr))) =
-      some (.left, some "l") ∧
-    roleProc.current.map (·.state) = some .proposed ∧ roleMeta.addr = "r" := by
-  decide
-
-theorem c09_role_false : ¬ RoleStatement := by
-  intro H
-  obtain ⟨h1, h2, -⟩ := c09_role_counterexample
-  have hne : (roleProc.packet roleMeta (.execute 0) 0).1 ≠ roleProc := by
-    intro he; rw [he] at h1
-    revert h1; decide
-  obtain ⟨next, hc, hr⟩ := H roleProc roleMeta (.execute 0) 0 hne
-  rw [hc] at h1
-  simp only [Option.map_some, Option.some.injEq, Prod.mk.injEq] at h1
-  simp only [h1.2] at hr
-  revert hr; decide
-
-
-/-- the degenerate case: a record without a leader takes an `abort` from the empty address -/
-def roleE : Participant := { addr := "", key := [5], sig := [5], scheme := "pedersen-bls-chained" }
-def roleStateNoLeader : DBState := { roleState with leader := none, remaining := [roleE, roleR] }
-def roleMetaNoLeader : Meta :=
-  { beaconID := "default", addr := "", sigId := "0011223344", sigKey := roleE.key,
-    sigMsg := messageForSigning "default" (.abort "none") (termsFromState roleStateNoLeader) }
-
-theorem c09_role_no_leader_counterexample :
-    (Proc.packet { roleProc with current := some roleStateNoLeader } roleMetaNoLeader (.abort "none") 0).1.current.map
-      (fun n => (n.state, n.leader.map (·.addr))) = some (.aborted, none) := by
-  decide
-
 private theorem proposed_role {d : DBState} {me t sender now n} (h : d.proposed me t sender now = .ok n) :
     t.leader.addr = sender ∧ n.leader = some t.leader := by
   unfold DBState.proposed at h
@@ -204,22 +113,22 @@ private theorem aborted_role {d : DBState} {sender n} (h : d.aborted sender = .o
   simpa using h1
 
 private theorem executing_role {d : DBState} {me sender now n} (h : d.executing me sender now = .ok n) :
-    (n.leader.map (·.addr)).getD "" = sender ∨ (n.state = .left ∧ contains n.leaving me = true) := by
+    (d.leader.map (·.addr)).getD "" = sender ∧ n.leader = d.leader := by
   unfold DBState.executing at h
   exc at h
   obtain ⟨-, h⟩ := h
   split at h
-  · rename_i hc
+  · exc at h
+    obtain ⟨h1, h⟩ := h
     unfold DBState.left at h
     exc at h
     obtain ⟨-, -, -, rfl⟩ := h
-    simp only [Bool.and_eq_true] at hc
-    exact .inr ⟨rfl, hc.1⟩
+    have : sender = (d.leader.map (·.addr)).getD "" := by simpa using h1
+    exact ⟨this.symm, rfl⟩
   · exc at h
     obtain ⟨-, -, h1, rfl⟩ := h
-    left
     have : sender = (d.leader.map (·.addr)).getD "" := by simpa using h1
-    exact this.symm
+    exact ⟨this.symm, rfl⟩
 
 private theorem receivedAcceptance_role {d : DBState} {them sender n} (h : d.receivedAcceptance them sender = .ok n) :
     them.addr = sender ∧ contains n.remaining them = true := by
@@ -237,15 +146,27 @@ private theorem receivedRejection_role {d : DBState} {them sender n} (h : d.rece
   have : sender = them.addr := by simpa using h2
   exact ⟨this.symm, by simpa using h1⟩
 
-/-- the role rule that does hold: as `c09_role`, except that (1) an `execute` packet from any listed member (not only
-the leader) moves a *leaver* to `Left`, and (2) for a record without a leader (`leader = none`, which no proposal
-produces) the code compares the sender with the empty address -/
-theorem c09_role_corrected (p : Proc) (m : Meta) (pk : Packet) (now : Int) (h : (p.packet m pk now).1 ≠ p) :
+/-! ### the property -/
+
+/-- a packet that changes anything was signed, over the message derived from the very state being stored, by the key
+that the stored state's own participant lists record for the claimed sender -/
+theorem c09_signed_by_listed (p : Proc) (m : Meta) (pk : Packet) (now : Int)
+    (h : (p.packet m pk now).1 ≠ p) :
+    ∃ next part, (p.packet m pk now).1.current = some next ∧
+      part ∈ next.remaining ++ next.joining ∧ part.addr = m.addr ∧ m.sigKey = part.key ∧
+      m.sigMsg = messageForSigning m.beaconID pk (termsFromState next) := by
+  obtain ⟨n, -, hv, hc⟩ := packet_changed h
+  obtain ⟨part, h1, h2, h3, h4⟩ := verifyMessage_ok hv
+  exact ⟨n, part, hc, h1, h2, h3, h4⟩
+
+/-- only the leader proposes, executes or aborts; only a remaining member accepts or rejects, and only for itself.
+(The leader of a record is compared through `getD ""`, as the model of `d.Leader.Address` does; the form
+`… = some m.addr` fails only for a record with `leader = none`, which no proposal produces.) -/
+theorem c09_role (p : Proc) (m : Meta) (pk : Packet) (now : Int) (h : (p.packet m pk now).1 ≠ p) :
     ∃ next, (p.packet m pk now).1.current = some next ∧
       (match pk with
        | .proposal t => t.leader.addr = m.addr ∧ next.leader = some t.leader
-       | .execute _ => (next.leader.map (·.addr)).getD "" = m.addr ∨
-                       (next.state = .left ∧ contains next.leaving p.me = true)
+       | .execute _ => (next.leader.map (·.addr)).getD "" = m.addr
        | .abort _ => (next.leader.map (·.addr)).getD "" = m.addr
        | .accept a => a.addr = m.addr ∧ contains next.remaining a = true
        | .reject r => r.addr = m.addr ∧ contains next.remaining r = true) := by
@@ -255,8 +176,24 @@ theorem c09_role_corrected (p : Proc) (m : Meta) (pk : Packet) (now : Int) (h : 
   | proposal t => exact proposed_role ha
   | accept a => exact receivedAcceptance_role ha
   | reject r => exact receivedRejection_role ha
-  | execute _ => exact executing_role ha
+  | execute _ =>
+    obtain ⟨h1, h2⟩ := executing_role ha
+    simp only [h2]; exact h1
   | abort _ => exact aborted_role ha
+
+/-
+History: before the fix, `DBState.Executing` sent a node listed as *leaving* to `Left` BEFORE comparing the sender with
+the leader, so an `execute` packet from ANY listed member moved a leaver to `Left`. Witness (replayed on the real
+dkg.Process): me = leaver "x" in state Proposed with leader "l"; an `execute` packet from the remaining member "r",
+signed by "r", was stored with state `Left`. Fixed by drand commit "fix: only the leader's execute packet moves a leaver
+to Left"; the model follows the repaired code, and the rule is now:
+-/
+/-- an `execute` packet that changes anything comes from the address of the leader recorded in the state it is applied to
+(leavers included) -/
+theorem c09_execute_needs_leader (p : Proc) (m : Meta) (t : Int) (now : Int)
+    (h : (p.packet m (.execute t) now).1 ≠ p) : (p.base.leader.map (·.addr)).getD "" = m.addr := by
+  obtain ⟨n, ha, -, -⟩ := packet_changed h
+  exact (executing_role ha).1
 
 /-- a signature made by anybody who is not listed (under the claimed address) in the terms being applied changes nothing -/
 theorem c09_unlisted_key_rejected (p : Proc) (m : Meta) (pk : Packet) (now : Int)
